@@ -308,7 +308,10 @@ func (ch *channel) receivedSegData(rsd recSegData) {
 		if rsd.isLmsg {
 			log.Info("Received lsmg indicating last segment")
 		}
-		newSeqNr, err := ch.segTimesGen.addSegmentData(log, rsd)
+		ch.mu.RLock()
+		nrTracks := uint32(len(ch.trDatas))
+		ch.mu.RUnlock()
+		newSeqNr, err := ch.segTimesGen.addSegmentData(log, rsd, nrTracks)
 		if err != nil {
 			log.Error("Failed to add segment data", "err", err)
 		}
